@@ -76,3 +76,7 @@ def cases(rng, tier):
 
 def search(rng, ops, broken):
     return cases(rng, "quick")
+
+
+# tie theorems (substrings of SLV.Gen.*Tie theorem names) this property's operators depend on
+TIE = ['inverse', 'deduce_of', 'gen_mbr', 'max_uncertainty', 'abduce', 'projections', 'Simplex_vacuous', 'is_vacuous', 'is_dogmatic', 'normalize_prob_dist', 'Simplex_normalized', 'OpinionRef_projection', 'Simplex_projection']
